@@ -170,6 +170,12 @@ func (m *monC05) OnObs(w *World, o *Obs) {
 		if first == 0 || payH > first+504 {
 			bucket = "outside-own-window"
 		}
+		if b != nil && int64(pm.Permitted) > b.C+4 {
+			// a different mechanism than the window arithmetic: the request / route permits more
+			// than the invoice's final CLTV plus the back-end's padding (CLN +1, LND +3+1), e.g.
+			// because something else in the invoice was added to the route's delay
+			bucket = "route-permits-more-than-invoice-cltv-plus-padding"
+		}
 		w.Violate("C05", fmt.Sprintf("htlc-can-outlive-csv:%s:%s", bucket, w.Nodes[o.Node].Flavor), "node %d (%s) sent the claim payment of swap %.8s at height %d with a permitted route CLTV of %d (invoice final CLTV %d): the HTLC can stay open until block %d, the maker can confirm a CSV refund in block %d (opening confirmed at %d)", o.Node, w.Nodes[o.Node].Flavor, si.ID, payH, pm.Permitted, b.C, expiry, refund, confH)
 	}
 }
